@@ -5,6 +5,7 @@
 J=${1:-6}
 cd /verif
 ls -d seeded/*/ | while read d; do
-  id=$(basename $d); prop=$(python3 -c "import json;print(json.load(open('$d/meta.json'))['property'])")
+  id=$(basename $d); prop=$(python3 -c "import json;m=json.load(open('$d/meta.json'));print(m['property'] if not m.get('superseded_by_fix') else 'SUPERSEDED')")
+  if [ "$prop" = SUPERSEDED ]; then echo "RESULT $id superseded by a fix commit (kept for the record, not run)" >&2; continue; fi
   echo "$d/patch.diff $prop"
 done | xargs -P $J -L 1 sh -c 'tools/seedtest.sh $0 $1 quick 2>&1 | grep "^RESULT"' | sort
